@@ -236,6 +236,7 @@ def _(c):
 def _(c):
     c.summary("merkle_of")
     c.returns(BYTES)
+    c.trust("the commitment is a function of the transaction list here; get_merkle_root against its specification is C17")
 
 
 @CS.contract("skepticoin.consensus.validate_block_by_itself", props=["C01", "C02", "C05"])
